@@ -4,6 +4,7 @@ import (
 	"fmt"
 	"go/ast"
 	"go/token"
+	"go/types"
 	"sort"
 	"strings"
 
@@ -49,6 +50,12 @@ func init() {
 		// 2. everything is read (and, inbound, replied) before anything is merged
 		hc := c.MustFunc("Memberlist.handleConn")
 		xh := c.flow(hc, map[string]string{})
+		// index of the error result of the two exchange helpers (their last result)
+		lastResult := func(name string) int {
+			sig := c.MustFunc(name).Obj.Type().(*types.Signature)
+			return sig.Results().Len() - 1
+		}
+		rrLast, srLast := lastResult("Memberlist.readRemoteState"), lastResult("Memberlist.sendAndReceiveState")
 		errNil := func(cube map[string]string, callPrefix, suffix string) string {
 			for k, v := range cube {
 				u := untok(k)
@@ -60,7 +67,7 @@ func init() {
 		}
 		nm := c.flowMay(xh, "C09/inbound/merge-after-read-and-reply", "inbound exchange: the merge is reached only if the whole remote state was read without error and the local state was sent back without error",
 			func(e *gea.Effect) bool { return e.Class == "CALL:Memberlist.mergeRemoteState" }, func(e *gea.Effect) (bool, string) {
-				r := errNil(e.Cube, "m.readRemoteState(", "#3==nil")
+				r := errNil(e.Cube, "m.readRemoteState(", fmt.Sprintf("#%d==nil", rrLast))
 				s := errNil(e.Cube, "m.sendLocalState(", "==nil")
 				if r != "T" {
 					return false, "remote state read error not checked (or failed)"
@@ -68,13 +75,23 @@ func init() {
 				if s != "T" {
 					return false, "the reply's success is not a precondition of the merge (a failed reply still merges: one-sided membership)"
 				}
+				// the merge gets every decoded result (all but the error), in order
 				d := e.Detail
-				return strings.HasPrefix(untok(d["arg0"]), "m.readRemoteState(") && strings.HasSuffix(d["arg0"], "#0") && strings.HasSuffix(d["arg1"], "#1") && strings.HasSuffix(d["arg2"], "#2"), "merge arguments are not the decoded (join, nodes, user state)"
+				for i := 0; i < rrLast; i++ {
+					a := d[fmt.Sprintf("arg%d", i)]
+					if !strings.HasPrefix(untok(a), "m.readRemoteState(") || !strings.HasSuffix(a, fmt.Sprintf("#%d", i)) {
+						return false, "merge arguments are not the decoded (join, nodes, user state)"
+					}
+				}
+				if _, extra := d[fmt.Sprintf("arg%d", rrLast)]; extra {
+					return false, "merge arguments are not the decoded (join, nodes, user state)"
+				}
+				return true, ""
 			})
 		c.Floor("merge calls in the inbound handler", nm, 1)
 		c.Rule("inbound exchange: when read and reply succeeded the merge is reached on every path (the host lists the joiner as soon as its handler finishes)")
 		for _, ex := range xh.Exits {
-			r := errNil(ex.Cube, "m.readRemoteState(", "#3==nil")
+			r := errNil(ex.Cube, "m.readRemoteState(", fmt.Sprintf("#%d==nil", rrLast))
 			s := errNil(ex.Cube, "m.sendLocalState(", "==nil")
 			if r == "T" && s == "T" {
 				c.Check("C09/inbound/merge-complete", "inbound exchange: when read and reply succeeded the merge is reached on every path", ex.Pos, ex.Seen["CALL:Memberlist.mergeRemoteState"] == 1, "exit without merging after a complete exchange")
@@ -110,13 +127,62 @@ func init() {
 		checkAliveVersions(c, "C09")
 		pp := c.MustFunc("Memberlist.pushPullNode")
 		xp := c.flow(pp, map[string]string{})
+		// when the exchange hands back one value that carries the join flag, every successful
+		// return of the exchange has stored its own join parameter in it
+		joinInResult := false
+		{
+			sr := c.MustFunc("Memberlist.sendAndReceiveState")
+			xs := c.flow(sr, map[string]string{})
+			nOK := 0
+			joinInResult = true
+			for _, ex := range xs.Exits {
+				if len(ex.Ret) == 0 || ex.Ret[len(ex.Ret)-1] != "nil" {
+					continue
+				}
+				nOK++
+				has := false
+				for k, t := range ex.Store {
+					if strings.HasSuffix(untok(k), ".join") && !strings.Contains(k, "$res") && !strings.HasPrefix(k, "~") {
+						if t.S == "join" || ((t.S == "T" || t.S == "F") && ex.Cube["join"] == t.S) {
+							has = true // the parameter itself, or its truth value on this path
+						} else {
+							joinInResult = false
+						}
+					}
+				}
+				if !has {
+					joinInResult = false
+				}
+			}
+			if nOK == 0 {
+				joinInResult = false
+			}
+		}
 		n2 := c.flowMay(xp, "C09/outbound/merge-after-read", "initiating side: the merge is reached only after the complete exchange returned without error, with exactly what it returned",
 			func(e *gea.Effect) bool { return e.Class == "CALL:Memberlist.mergeRemoteState" }, func(e *gea.Effect) (bool, string) {
-				if errNil(e.Cube, "m.sendAndReceiveState(", "#2==nil") != "T" {
+				if errNil(e.Cube, "m.sendAndReceiveState(", fmt.Sprintf("#%d==nil", srLast)) != "T" {
 					return false, "exchange error not checked"
 				}
+				// the merge gets the initiator's own join flag - as an argument, or inside the
+				// exchange's result (then the exchange must have put it there: checked below) -
+				// and every result of the exchange but the error, in order
 				d := e.Detail
-				return d["arg0"] == "join" && strings.HasSuffix(d["arg1"], "#0") && strings.HasSuffix(d["arg2"], "#1"), "merge arguments"
+				k := 0
+				if d["arg0"] == "join" {
+					k = 1
+				} else if !joinInResult {
+					return false, "merge arguments: the join flag is not the initiator's"
+				}
+				for i := 0; i < srLast; i++ {
+					a := d[fmt.Sprintf("arg%d", k+i)]
+					if !strings.HasPrefix(untok(a), "m.sendAndReceiveState(") || !strings.HasSuffix(a, fmt.Sprintf("#%d", i)) {
+						return false, "merge arguments"
+					}
+				}
+				if _, extra := d[fmt.Sprintf("arg%d", k+srLast)]; extra {
+					return false, "merge arguments"
+				}
+				return true, ""
 			})
 		c.Floor("merge calls on the initiating side", n2, 1)
 		for _, ex := range xp.Exits {
@@ -153,15 +219,50 @@ func init() {
 		// 3. veto order inside the merge
 		mr := c.MustFunc("Memberlist.mergeRemoteState")
 		xm := c.flow(mr, map[string]string{})
+		// the roles of the merge's inputs, found by type among its parameters (or the fields
+		// of a struct parameter): the remote list, the join flag, the user state
+		nodesName, joinName, userName := "remoteNodes", "join", "userBuf"
+		{
+			found := map[string]string{}
+			note := func(name string, t types.Type) {
+				switch ts := core.TypeStr(p, t); {
+				case strings.HasSuffix(ts, "[]pushNodeState"):
+					found["nodes"] = name
+				case ts == "bool":
+					found["join"] = name
+				case ts == "[]byte" || ts == "[]uint8":
+					found["user"] = name
+				}
+			}
+			for _, f := range mr.Decl.Type.Params.List {
+				for _, n := range f.Names {
+					pn := n.Name
+					if r, ok := p.Rename[p.Info.Defs[n]]; ok {
+						pn = r
+					}
+					t := p.TypeOf(f.Type)
+					if st, isStruct := t.Underlying().(*types.Struct); isStruct {
+						for i := 0; i < st.NumFields(); i++ {
+							note(pn+"."+st.Field(i).Name(), st.Field(i).Type())
+						}
+					} else {
+						note(pn, t)
+					}
+				}
+			}
+			if len(found) == 3 {
+				nodesName, joinName, userName = found["nodes"], found["join"], found["user"]
+			}
+		}
 		n3 := c.flowMay(xm, "C09/merge/veto-order", "merge: the membership merge runs only after the protocol verifier accepted the remote list and, on a join with a merge delegate, after the delegate accepted it",
 			func(e *gea.Effect) bool { return e.Class == "CALL:Memberlist.mergeState" }, func(e *gea.Effect) (bool, string) {
-				if errNil(e.Cube, "m.verifyProtocol(remoteNodes)", "==nil") != "T" {
+				if errNil(e.Cube, "m.verifyProtocol("+nodesName+")", "==nil") != "T" {
 					return false, "protocol verification not passed"
 				}
-				if e.Detail["arg0"] != "remoteNodes" {
+				if e.Detail["arg0"] != nodesName {
 					return false, "merges " + e.Detail["arg0"]
 				}
-				j, hasJ := e.Cube["join"]
+				j, hasJ := e.Cube[joinName]
 				md, hasM := e.Cube["m.config.Merge==nil"]
 				if !hasJ {
 					return false, "join flag not consulted"
@@ -178,10 +279,10 @@ func init() {
 			})
 		c.Floor("membership merges in mergeRemoteState", n3, 1)
 		c.flowMay(xm, "C09/merge/verify-args", "the verifier is given the remote list that is later merged", func(e *gea.Effect) bool { return e.Class == "CALL:Memberlist.verifyProtocol" },
-			func(e *gea.Effect) (bool, string) { return e.Detail["arg0"] == "remoteNodes", e.Detail["arg0"] })
+			func(e *gea.Effect) (bool, string) { return e.Detail["arg0"] == nodesName, e.Detail["arg0"] })
 		c.flowMay(xm, "C09/merge/user-state-after", "the user-state delegate runs only after the membership merge", func(e *gea.Effect) bool { return e.Class == "DELEGATE:MergeRemoteState" },
 			func(e *gea.Effect) (bool, string) {
-				return e.Seen["CALL:Memberlist.mergeState"] == 1 && e.Detail["arg0"] == "userBuf" && e.Detail["arg1"] == "join", "user state delegate before the merge or with wrong arguments"
+				return e.Seen["CALL:Memberlist.mergeState"] == 1 && e.Detail["arg0"] == userName && (e.Detail["arg1"] == joinName || ((e.Detail["arg1"] == "T" || e.Detail["arg1"] == "F") && e.Cube[joinName] == e.Detail["arg1"])), "user state delegate before the merge or with wrong arguments"
 			})
 		for _, ex := range xm.Exits {
 			if len(ex.Ret) == 1 && ex.Ret[0] != "nil" {
